@@ -80,6 +80,11 @@ func (c04) Gen(r *rand.Rand, tier string, run int) *core.Case {
 		c.Batch = "fault-free"
 	}
 	kinds := []string{"echo", "echo", "echo", "noarg", "fire", "slow", "cancel-echo", "cancel-noarg"}
+	if r.IntN(3) == 0 {
+		// the generic object features are calls like any other: statistics
+		// and tracing change how an object answers
+		kinds = append(kinds, "stats-on", "stats-on", "trace-on", "stats-read")
+	}
 	for k := 0; k < callers; k++ {
 		n := 1 + r.IntN(4)
 		conn := r.IntN(nConn)
@@ -214,6 +219,18 @@ func c04op(env *core.Env, a, i int, op core.Op, p probe.ProbeProxy) {
 		h := env.Invoke(a, "noarg", arg)
 		n, err := p.Noarg()
 		env.Return(h, strconv.Itoa(int(n)), err)
+	case "stats-on":
+		h := env.Invoke(a, "stats-on", arg)
+		err := p.EnableStats(true)
+		env.Return(h, "", err)
+	case "trace-on":
+		h := env.Invoke(a, "trace-on", arg)
+		err := p.EnableTrace(true)
+		env.Return(h, "", err)
+	case "stats-read":
+		h := env.Invoke(a, "stats-read", arg)
+		_, err := p.Stats()
+		env.Return(h, "", err)
 	case "cancel-echo", "cancel-noarg":
 		ctx, cancel := context.WithCancel(context.Background())
 		q := p.WithContext(ctx)
